@@ -77,6 +77,30 @@ func perturb(rng *rand.Rand, t *segs.Topo) {
 	}
 }
 
+// distinctPeerHops returns a copy of the segment in which every peer entry's hop field differs from
+// the regular hop field of its AS entry in every field a combinator could mix up (expiry, MAC) -
+// the real extender gives both the same expiry, other implementations need not.
+func distinctPeerHops(rng *rand.Rand, ps *seg.PathSegment) *seg.PathSegment {
+	c := ps.ShallowCopy()
+	for i := range c.ASEntries {
+		e := c.ASEntries[i]
+		if len(e.PeerEntries) == 0 {
+			continue
+		}
+		pe := append([]seg.PeerEntry{}, e.PeerEntries...)
+		for j := range pe {
+			x := uint8(rng.Intn(256))
+			for x == e.HopEntry.HopField.ExpTime {
+				x = uint8(rng.Intn(256))
+			}
+			pe[j].HopField.ExpTime = x
+			rng.Read(pe[j].HopField.MAC[:])
+		}
+		c.ASEntries[i].PeerEntries = pe
+	}
+	return c
+}
+
 func subset(rng *rand.Rand, l []*seg.PathSegment, maxN int) []*seg.PathSegment {
 	out := append([]*seg.PathSegment{}, l...)
 	rng.Shuffle(len(out), func(i, j int) { out[i], out[j] = out[j], out[i] })
@@ -109,6 +133,7 @@ func main() {
 	for i := 0; i < *n; i++ {
 		rng := vt.Rand(int64(i))
 		o := segs.DefaultOpts()
+		o.SameASNumbers = i%2 == 1
 		if i%5 == 4 {
 			o.MaxLevel = 3
 			o.MaxNonCore = 5
@@ -130,6 +155,11 @@ func main() {
 				vt.Fatal("beaconing run failed: %v", err)
 			}
 			for ia, l := range ss.Down {
+				if i%3 == 1 {
+					for k := range l {
+						l[k] = distinctPeerHops(rng, l[k])
+					}
+				}
 				down[ia] = append(down[ia], l...)
 			}
 			cores = append(cores, ss.Core...)
